@@ -59,7 +59,8 @@ type Config struct {
 	Seed      uint64 // exploration PRNG seed
 	Policy    Policy
 	MaxProbes int64 // probe budget (0 = default)
-	HB        bool  // maintain vector clocks and check Access() calls
+	HB        bool  // maintain vector clocks; report unordered map accesses (map-race)
+	HBVars    bool  // also report unordered accesses to package-level variables (hb-race, C13)
 	Trace     bool  // keep a readable event log
 	TraceMax  int
 }
@@ -234,7 +235,10 @@ func Run(cfg Config, root func()) Result {
 		}
 	}
 	cur = nil
-	if s.res.Class == "" && s.hb != nil && s.hb.firstMsg != "" {
+	if s.res.Class == "" && s.hb != nil && s.hb.firstMapMsg != "" {
+		s.res.Class, s.res.Msg, s.res.Sig = ClassMapRace, s.hb.firstMapMsg, s.hb.firstMapSig
+	}
+	if s.res.Class == "" && s.hb != nil && s.hb.firstMsg != "" && cfg.HBVars {
 		s.res.Class, s.res.Msg, s.res.Sig = ClassRace, s.hb.firstMsg, s.hb.firstSig
 	}
 	r := s.res
